@@ -24,11 +24,12 @@ import (
 
 type CheckDef struct {
 	ID          string
-	Jobs        func(tier string) []*Job
+	Jobs        func(tier string, p *Program) []*Job
 	Assumptions []string
 	Stubs       []string
 	Bounds      map[string]string // tier -> text
 	Rule        string
+	IgnoreKinds []string // violation kinds that are another property's subject (counted, not reported)
 }
 
 var checks = map[string]*CheckDef{}
@@ -129,7 +130,7 @@ func cmdCheck(args []string) int {
 		return 2
 	}
 	loadT := time.Since(t0)
-	jobs := def.Jobs(*tier)
+	jobs := def.Jobs(*tier, prog)
 	if *only != "" {
 		var f []*Job
 		for _, j := range jobs {
@@ -159,6 +160,7 @@ func cmdCheck(args []string) int {
 	var allViol []*Violation
 	var samples []map[string]any
 	asserts, discharged := 0, 0
+	ignoredKinds := map[string]int{}
 	for _, j := range jobs {
 		if *verbose || len(jobs) <= 40 {
 			fmt.Fprintln(os.Stderr, j.summary())
@@ -170,7 +172,7 @@ func cmdCheck(args []string) int {
 		steps += j.steps
 		asserts += j.asserts
 		discharged += j.discharged
-		for _, bad := range []string{"unsupported", "engine-error", "budget", "depth", "solver-unknown", "setup-failed", "timeout-skipped", "dropped-maxpaths", "infeasible"} {
+		for _, bad := range []string{"unsupported", "engine-error", "solver-unknown", "setup-failed", "timeout-skipped", "dropped-maxpaths", "infeasible"} {
 			if j.paths[bad] > 0 {
 				msg := fmt.Sprintf("job %s: %d paths ended %s", j.Name, j.paths[bad], bad)
 				if len(j.unsupported) > 0 {
@@ -180,11 +182,29 @@ func cmdCheck(args []string) int {
 			}
 		}
 		for _, l := range j.Reach {
-			if !j.reaches[l] {
+			hit := false
+			for _, alt := range strings.Split(l, "|") {
+				if j.reaches[alt] {
+					hit = true
+				}
+			}
+			if !hit && !(j.paths["panic-escaped"] > 0) {
 				inconclusive = append(inconclusive, fmt.Sprintf("job %s: reach label %q not witnessed (vacuous harness?)", j.Name, l))
 			}
 		}
-		allViol = append(allViol, dedupViolations(j.violations)...)
+		for _, v := range dedupViolations(j.violations) {
+			ignored := false
+			for _, k := range def.IgnoreKinds {
+				if v.Kind == k {
+					ignored = true
+				}
+			}
+			if ignored {
+				ignoredKinds[v.Kind]++
+				continue
+			}
+			allViol = append(allViol, v)
+		}
 		if len(samples) < 12 {
 			for _, s := range j.samples {
 				if len(samples) < 12 {
@@ -269,28 +289,29 @@ func cmdCheck(args []string) int {
 	}
 	wall := time.Since(t0).Seconds()
 	cov := map[string]any{
-		"states":                        states,
-		"transitions":                   int(decisions) + states,
-		"traces_validated_against_impl": replayed,
-		"samples":                       samples,
-		"paths_by_outcome":              totalPaths,
-		"jobs":                          len(jobs),
-		"assertions_checked":            asserts,
-		"assertion_queries_unsat":       discharged,
-		"functions_encoded":             fnames,
-		"functions_encoded_count":       len(fnames),
-		"functions_hash":                hex.EncodeToString(h.Sum(nil))[:16],
-		"bounds":                        def.Bounds[*tier],
-		"queries":                       map[string]int{"total": ex.solverStats.q, "sat": ex.solverStats.sat, "unsat": ex.solverStats.unsat, "unknown": ex.solverStats.unk},
-		"solver_s":                      ex.solverStats.t.Seconds(),
-		"solver":                        "z3 (via -in, incremental)",
-		"instructions_interpreted":      steps,
-		"load_s":                        loadT.Seconds(),
-		"stubs":                         def.Stubs,
-		"rule":                          def.Rule,
-		"violations_detail":             vout,
-		"inconclusive":                  inconclusive,
-		"exhaustive":                    len(inconclusive) == 0,
+		"states":                          states,
+		"transitions":                     int(decisions) + states,
+		"traces_validated_against_impl":   replayed,
+		"samples":                         samples,
+		"paths_by_outcome":                totalPaths,
+		"jobs":                            len(jobs),
+		"assertions_checked":              asserts,
+		"assertion_queries_unsat":         discharged,
+		"functions_encoded":               fnames,
+		"functions_encoded_count":         len(fnames),
+		"functions_hash":                  hex.EncodeToString(h.Sum(nil))[:16],
+		"bounds":                          def.Bounds[*tier],
+		"queries":                         map[string]int{"total": ex.solverStats.q, "sat": ex.solverStats.sat, "unsat": ex.solverStats.unsat, "unknown": ex.solverStats.unk},
+		"solver_s":                        ex.solverStats.t.Seconds(),
+		"solver":                          "z3 (via -in, incremental)",
+		"instructions_interpreted":        steps,
+		"load_s":                          loadT.Seconds(),
+		"stubs":                           def.Stubs,
+		"rule":                            def.Rule,
+		"violations_detail":               vout,
+		"ignored_outcomes_other_property": ignoredKinds,
+		"inconclusive":                    inconclusive,
+		"exhaustive":                      len(inconclusive) == 0,
 	}
 	if len(samples) == 0 {
 		cov["samples"] = []any{"no completed path"}
@@ -339,7 +360,7 @@ func harnessPackages(p *Program) map[string][]string {
 			continue
 		}
 		for name, mem := range pkg.Members {
-			if fn, ok := mem.(*ssa.Function); ok && strings.HasPrefix(name, "ZZ_") && fn.Signature.Params().Len() == 0 {
+			if fn, ok := mem.(*ssa.Function); ok && strings.HasPrefix(name, "ZZ_") && fn.Signature.Params().Len() == 0 && fn.Signature.Results().Len() == 0 {
 				rel := strings.TrimPrefix(strings.TrimPrefix(path, repoPath), "/")
 				out[rel] = append(out[rel], name)
 			}
@@ -440,7 +461,7 @@ func expectedOutcome(v *Violation) string {
 		return "assert " + v.Label
 	case "panic":
 		return "panic " + v.Msg
-	case "deadlock":
+	case "deadlock", "hang":
 		return "hang"
 	case "spin":
 		return "spin"
@@ -454,8 +475,8 @@ func outcomeMatches(v *Violation, got string) bool {
 		// compare message text up to the first newline
 		return strings.HasPrefix(got, "panic ") && normPanic(got[6:]) == normPanic(v.Msg)
 	}
-	if v.Kind == "deadlock" {
-		return strings.HasPrefix(got, "hang")
+	if v.Kind == "deadlock" || v.Kind == "hang" {
+		return strings.HasPrefix(got, "hang") || strings.Contains(got, "stack overflow")
 	}
 	if v.Kind == "spin" {
 		return strings.HasPrefix(got, "spin") || strings.HasPrefix(got, "hang")
@@ -465,6 +486,12 @@ func outcomeMatches(v *Violation, got string) bool {
 
 func normPanic(s string) string {
 	s = firstLine(s)
+	if i := strings.Index(s, " with "); i >= 0 {
+		s = s[:i]
+	}
+	if i := strings.Index(s, " @ "); i >= 0 {
+		s = s[:i]
+	}
 	s = strings.TrimPrefix(s, "runtime error: ")
 	return strings.TrimSpace(s)
 }
